@@ -259,6 +259,9 @@ Definition poll (s : state) (sid : Z) : state * option err :=
 Inductive event :=
 | Create (k : key) (tpk : bool) (vs : list Z) (n : nat) (qarr args res : Z) (ws : list wspec)
 | Recv (k : key) (vs : option (list Z)) (n : nat) (qarr res : Z) (ws : list wspec)
+| CreateRefused (k : key) (tpk : bool) (vs : list Z) (n : nat) (qarr args res : Z)
+    (* the same subroutine, but network_stack.put raises (the stack refuses the request):
+       create_epr faults at that line and the subroutine ends *)
 | Resp (r : resp)
 | Retry
 | Poll (sid : Z)
@@ -280,6 +283,10 @@ Definition create_args (tpk : bool) (n : nat) : list (option Z) :=
 Definition bump_sid (s : state) : state :=
   mkSt (node s) (reqs s) (pend s) (arrs s) (um s) (used s) (subs s) (next_sid s + 1) (next_req s) (next_resp s) (log s) (issued s).
 
+(* a subroutine that only declared arrays and then ended *)
+Definition declare (s : state) (ar : list (Z * list (option Z))) : state :=
+  mkSt (node s) (reqs s) (pend s) ar (um s) (used s) (subs s) (next_sid s + 1) (next_req s) (next_resp s) (log s) (issued s).
+
 Definition of_pres (s0 : state) (p : pres) : state * option err :=
   match p with
   | Quiet s => (s, None)
@@ -297,6 +304,14 @@ Definition step (s : state) (e : event) : state * option err :=
       let ar := aset Z.eqb res (repeat None (n * OK_FIELDS)) ar in
       let s1 := enqueue s k true (if tpk then Some qarr else None) res n ar ws in
       poll s1 (next_sid s)
+  | CreateRefused k tpk vs n qarr args res =>
+      (* the arrays were declared by the instructions before create_epr; the refused request
+         leaves NO outstanding request behind: the queues are as before the instruction *)
+      if (Nat.eqb n 0) || (tpk && negb (Nat.eqb (List.length vs) n)) then (s, Some EBadEvent) else
+      let ar := if tpk then aset Z.eqb qarr (map Some vs) (arrs s) else arrs s in
+      let ar := aset Z.eqb args (create_args tpk n) ar in
+      let ar := aset Z.eqb res (repeat None (n * OK_FIELDS)) ar in
+      (declare s ar, None)
   | Recv k vs n qarr res ws =>
       if Nat.eqb n 0 then (s, Some EBadEvent) else
       let ar := match vs with Some l => aset Z.eqb qarr (map Some l) (arrs s) | None => arrs s end in
@@ -355,3 +370,35 @@ Fixpoint run (s : state) (es : list event) : option state :=
 (* the queue the code keeps for one (key, role) *)
 Definition queue (s : state) (k : key) (creator : bool) : list req :=
   filter (fun q => key_eqb (q_key q) k && Bool.eqb (q_creator q) creator) (reqs s).
+
+(* ------------------------------------------------------------------ sockets and purposes *)
+(* create_epr / recv_epr name the LOCAL EPR socket; the request is queued under the purpose id
+   the network stack assigns to that socket (_get_purpose_id), which is also what responses
+   carry.  The assignment is the stack's business: identity, cross-connected sockets
+   (purpose = the remote side's socket id), a constant offset, ... *)
+Inductive pmap := PId | PSwap | POff (d : Z).
+
+Definition purpose_of (pm : pmap) (remote sock : Z) : Z :=
+  match pm with
+  | PId => sock
+  | PSwap => 1 - sock
+  | POff d => sock + d
+  end.
+
+(* events as the instructions state them: (remote node, local socket) *)
+Inductive ievent :=
+| ICreate (remote sock : Z) (tpk : bool) (vs : list Z) (n : nat) (qarr args res : Z) (ws : list wspec)
+| IRecv (remote sock : Z) (vs : option (list Z)) (n : nat) (qarr res : Z) (ws : list wspec)
+| ICreateRefused (remote sock : Z) (tpk : bool) (vs : list Z) (n : nat) (qarr args res : Z)
+| IOther (e : event).
+
+Definition lower (pm : pmap) (ie : ievent) : event :=
+  match ie with
+  | ICreate remote sock tpk vs n qarr args res ws =>
+      Create (remote, purpose_of pm remote sock) tpk vs n qarr args res ws
+  | IRecv remote sock vs n qarr res ws =>
+      Recv (remote, purpose_of pm remote sock) vs n qarr res ws
+  | ICreateRefused remote sock tpk vs n qarr args res =>
+      CreateRefused (remote, purpose_of pm remote sock) tpk vs n qarr args res
+  | IOther e => e
+  end.
